@@ -358,13 +358,20 @@ def expand_closures(text, root, record):
             raise LookupError("anchor lost: closure head %r not found in %s" % (head, locator))
         mask = strip_comments_mask(item)
         b0 = mask.find("{", k + len(head))
-        if b0 < 0 or mask[k + len(head):b0].strip():
+        if sig.startswith("=>"):
+            # match-arm form `<pattern> => => <signature>`: the block is the arm's body
+            sig = sig[2:].strip()
+        if b0 < 0 or mask[k + len(head):b0].strip() not in ("", "=>"):
             raise LookupError("anchor lost: closure %r in %s has no block body" % (head, locator))
         b1 = match_brace(mask, b0)
         body = item[b0:b1 + 1]
         if head.startswith("for ") or head.startswith("while "):
             # a loop statement: keep its head, wrap the whole statement in the new function
             body = "{\n" + head + " " + body + "\n}"
+        if ";;" in sig:
+            # `<signature> ;; <epilogue>`: the block becomes a statement followed by the epilogue (e.g. `Ok(())`)
+            sig, epilogue = [x.strip() for x in sig.split(";;", 1)]
+            body = "{\n" + body + "\n" + epilogue + "\n}"
         record.append({"source": ("src/" + rel) if not rel.startswith("src/") else rel, "item": locator + " / closure " + head,
                        "sha256_of_source_span": sha256(body), "renamed_to": sig, "substitutions": []})
         return sig + " " + body
